@@ -1,9 +1,71 @@
 (* C03 - LP verdicts and optima are exact (simplex); interior point is right when its gate says OPTIMAL.
    Property theorems (each is `exact` of a lemma proved under coq/C03/). *)
 From Coq Require Import List QArith Qabs Bool.
-From SV Require Import C03.Simplex C03.SimplexCorr C03.LPSpec C03.Cert C03.CertProofs.
+From SV Require Import C03.Simplex C03.SimplexCorr C03.LPSpec C03.Cert C03.CertProofs C03.LinAlgProofs
+  C03.PivotProofs C03.Phase2Entries C03.Phase2Inv C03.ExtractProofs C03.OptimalProofs C03.Ipm C03.IpmProofs.
 Import ListNotations.
 Open Scope Q_scope.
+
+(* ---- (1) a pivot on a non-zero element keeps the solution set of the tableau (objective row included) *)
+Theorem C03_pivot_equiv : forall k T r c v z,
+  tab_wf k T -> (r < length (t_rows T))%nat ->
+  ~ get (fst (nth r (t_rows T) row0)) c == 0 ->
+  (tab_sat v z T <-> tab_sat v z (pivot 0 T r c)).
+Proof. exact pivot_equiv. Qed.
+Print Assumptions C03_pivot_equiv.
+
+(* ---- phase2_inv: every pivot chosen by _phase2 (exact arithmetic) keeps "basic columns are unit columns,
+   reduced cost 0 on basic columns, rhs >= 0" and the solution set; OPTIMAL means no entering column is left,
+   UNBOUNDED means an entering column without a leaving row *)
+Theorem C03_phase2_inv : forall N fuel it T basis piv st it' T' basis' piv',
+  p2_inv N T basis ->
+  phase2 0 fuel it T basis piv = (st, it', T', basis', piv') ->
+  p2_inv N T' basis'
+  /\ (forall v z, tab_sat v z T <-> tab_sat v z T')
+  /\ (st = OPTIMAL -> find_enter 0 basis' T' = None)
+  /\ (st = UNBOUNDED -> exists e, find_enter 0 basis' T' = Some e /\ find_leave 0 basis' T' e = None).
+Proof. exact phase2_inv. Qed.
+Print Assumptions C03_phase2_inv.
+
+(* ---- (2) OPTIMAL is sound.  Full statement (every valid LP, exact arithmetic, any iteration limit): *)
+Definition C03_optimal_sound_full_statement : Prop :=
+  forall minimize fuel c A b r,
+    valid_lp c A b = true ->
+    solve_lp 0 minimize fuel c A b = r -> r_status r = OPTIMAL ->
+    lp_optimal minimize c A b (r_solution r) /\ r_objective r == dot c (r_solution r).
+(* Proved below for the LPs that need no phase 1 (b >= 0: the slack basis is feasible).  Missing for the
+   general statement: the invariant through _phase1 (artificial columns, driving artificials out, dropping
+   their columns, restoring the objective row); for those runs optimality is established per run by the
+   certificate theorems C03_cert_..., evaluated inside coqc on every explored case. *)
+Theorem C03_optimal_sound_partial : forall minimize fuel c A b r,
+  valid_lp c A b = true -> forallb (Qleb 0) b = true ->
+  solve_lp 0 minimize fuel c A b = r -> r_status r = OPTIMAL ->
+  lp_optimal minimize c A b (r_solution r) /\ r_objective r == dot c (r_solution r).
+Proof. exact optimal_sound_nophase1. Qed.
+Print Assumptions C03_optimal_sound_partial.
+
+(* ---- (3), (4) INFEASIBLE / UNBOUNDED are sound.  Full statements: *)
+Definition C03_infeasible_sound_full_statement : Prop :=
+  forall minimize fuel c A b r,
+    valid_lp c A b = true ->
+    solve_lp 0 minimize fuel c A b = r -> r_status r = INFEASIBLE -> lp_infeasible A b.
+Definition C03_unbounded_sound_full_statement : Prop :=
+  forall minimize fuel c A b r,
+    valid_lp c A b = true ->
+    solve_lp 0 minimize fuel c A b = r -> r_status r = UNBOUNDED -> lp_unbounded minimize c A b.
+(* Not proved in general (same missing phase-1 invariant; for UNBOUNDED the ray construction from
+   C03_phase2_inv's last clause).  Partial: whenever the certificate read off the model's final tableau passes
+   the boolean checker - which the cert_* lemmas of every check run establish for every explored case - the
+   verdict is correct. *)
+Theorem C03_infeasible_sound_partial : forall k,
+  k_status k = INFEASIBLE -> cert_case_check k = true -> lp_infeasible (k_A k) (k_b k).
+Proof. intros k Hs Hc. pose proof (cert_case_sound k Hc) as H. unfold case_claim in H. rewrite Hs in H. exact H. Qed.
+Print Assumptions C03_infeasible_sound_partial.
+
+Theorem C03_unbounded_sound_partial : forall k,
+  k_status k = UNBOUNDED -> cert_case_check k = true -> lp_unbounded (k_min k) (k_c k) (k_A k) (k_b k).
+Proof. intros k Hs Hc. pose proof (cert_case_sound k Hc) as H. unfold case_claim in H. rewrite Hs in H. exact H. Qed.
+Print Assumptions C03_unbounded_sound_partial.
 
 (* ---- per-run certificates: the boolean checkers evaluated by the cert_* lemmas of every check run *)
 Theorem C03_cert_optimal_sound : forall tol minimize c A b x obj y,
@@ -30,3 +92,46 @@ Print Assumptions C03_cert_ray_sound.
 Theorem C03_cert_case_sound : forall k, cert_case_check k = true -> case_claim k.
 Proof. exact cert_case_sound. Qed.
 Print Assumptions C03_cert_case_sound.
+
+(* ---- interior point: the code's convergence test implies eps-feasibility and an explicit gap bound *)
+Theorem C03_ipm_gate : forall eps A b w xs ss y zx zs,
+  gate eps A b w xs ss y zx zs = true ->
+  feasible_tol eps A b xs /\
+  forall xstar, feasible A b xstar ->
+    dot w xs - dot w xstar <= gap_bound eps A b xs ss y xstar.
+Proof. exact ipm_gate_sound. Qed.
+Print Assumptions C03_ipm_gate.
+
+(* ---- non-vacuity *)
+Definition ex_T : tableau := mkT [([1; 1; 1; 0], 4); ([1; 3; 0; 1], 6)] ([-3; -2; 0; 0], 0).
+Example C03_pivot_equiv_nonvacuous :
+  tab_wf 4 ex_T /\ (0 < length (t_rows ex_T))%nat /\ ~ get (fst (nth 0 (t_rows ex_T) row0)) 0 == 0
+  /\ pivot 0 ex_T 0 0 = mkT [([1; 1; 1; 0], 4); ([0; 2; -1; 1], 2)] ([0; 1; 3; 0], 12).
+Proof.
+  split; [split; [repeat constructor | reflexivity]|]. split; [simpl; auto|]. split; [|vm_compute; reflexivity].
+  intro H. vm_compute in H. discriminate.
+Qed.
+
+Definition ex_opt : lp_case :=
+  mkC false None [3; 2] [[1; 1]; [1; 3]; [1; 0]] [4; 6; 3] OPTIMAL [(2, 0); (0, 1)]%nat 2%nat [3; 1] 11.
+Definition ex_inf : lp_case :=
+  mkC true None [1; 1] [[1; 1]; [-1; -1]] [1; -3] INFEASIBLE [(1, 0)]%nat 1%nat [0; 0] 0.
+Definition ex_unb : lp_case :=
+  mkC false None [1; 1] [[-1; -1]; [1; -1]] [-1; 2] UNBOUNDED [(0, 0)]%nat 1%nat [0; 0] 0.
+Example C03_cert_nonvacuous :
+  cert_case_check ex_opt = true /\ cert_case_check ex_inf = true /\ cert_case_check ex_unb = true
+  /\ r_status (run_case 0 ex_opt) = OPTIMAL /\ r_status (run_case 0 ex_inf) = INFEASIBLE
+  /\ r_status (run_case 0 ex_unb) = UNBOUNDED.
+Proof. vm_compute. repeat split. Qed.
+
+(* the hypotheses of C03_optimal_sound_partial hold on a two-pivot maximisation problem *)
+Example C03_optimal_sound_nonvacuous :
+  valid_lp [3; 2] [[1; 1]; [1; 3]; [1; 0]] [4; 6; 3] = true /\ forallb (Qleb 0) [4; 6; 3] = true
+  /\ r_status (solve_lp 0 false max_iter_default [3; 2] [[1; 1]; [1; 3]; [1; 0]] [4; 6; 3]) = OPTIMAL
+  /\ r_solution (solve_lp 0 false max_iter_default [3; 2] [[1; 1]; [1; 3]; [1; 0]] [4; 6; 3]) = [3; 1].
+Proof. vm_compute. repeat split. Qed.
+
+(* min -x s.t. x <= 1: optimum x = 1, slack 0, multiplier y = -1 (the code's sign), zs = 1 *)
+Example C03_ipm_gate_nonvacuous :
+  gate (1 # 100000000) [[1]] [1] [-1] [1] [0] [-1] [0] [1] = true.
+Proof. vm_compute. reflexivity. Qed.
